@@ -393,6 +393,61 @@ pub fn check_crowded(c: &CrowdCase, st: &mut Stats) -> Result<(), Viol> {
             w.drain(i);
         }
     }
+    // one command that is announced many times to the same member: every announcement arrives
+    // (a comma-list JOIN / PART over channels shared with m1, a KICK naming many members)
+    let k = (20 + s.pick(25)).min(many);
+    let sub = list[..k].join(",");
+    for verb in ["JOIN", "PART"] {
+        w.send_line(2, &format!("{} {}", verb, sub));
+        w.settle();
+        w.settle();
+        let ls = w.drain(1);
+        w.drain(2);
+        let got: BTreeSet<String> = ls
+            .iter()
+            .filter_map(|l| crate::refparse::parse(l).ok())
+            .filter(|m| m.command == verb && m.source.as_deref().map_or(false, |x| x.starts_with(&format!("{}!", nick[2]))))
+            .filter_map(|m| m.params.get(0).cloned())
+            .collect();
+        let want: BTreeSet<String> = list[..k].iter().cloned().collect();
+        log.push(format!("{} {}s {} channels shared with {}: {} announcements", nick[2], verb, k, nick[1], got.len()));
+        if got != want {
+            return Err(fail(
+                "C04.every_announcement_delivered",
+                format!("{} sent one {} for {} channels it shares with {}; {} got {} announcements, missing {:?}", nick[2], verb, k, nick[1], nick[1], got.len(), want.difference(&got).take(5).collect::<Vec<_>>()),
+                &log,
+            ));
+        }
+    }
+    let victims: Vec<usize> = members.iter().cloned().filter(|i| *i > 1).take(20 + s.pick(25)).collect();
+    if victims.len() >= 2 && members.contains(&1) {
+        let names: Vec<String> = victims.iter().map(|i| nick[*i].clone()).collect();
+        w.send_line(0, &format!("KICK #big {} :all out", names.join(",")));
+        w.settle();
+        w.settle();
+        let ls = w.drain(1);
+        let got: BTreeSet<String> = ls.iter().filter_map(|l| crate::refparse::parse(l).ok()).filter(|m| m.command == "KICK").filter_map(|m| m.params.get(1).cloned()).collect();
+        let want: BTreeSet<String> = names.iter().cloned().collect();
+        log.push(format!("{} kicks {} members in one command: {} sees {} KICKs", nick[0], names.len(), nick[1], got.len()));
+        if got != want {
+            return Err(fail(
+                "C04.every_announcement_delivered",
+                format!("one KICK named {} members of #big; the member {} saw {} of them leave, not {:?}", names.len(), nick[1], got.len(), want.difference(&got).take(5).collect::<Vec<_>>()),
+                &log,
+            ));
+        }
+        for v in &victims {
+            members.remove(v);
+        }
+        for i in 0..n {
+            w.drain(i);
+        }
+        let truth: BTreeSet<String> = members.iter().map(|i| nick[*i].clone()).collect();
+        let (nm, wh) = names_of(&mut w, outsider, &mut log);
+        if nm != truth || wh != truth {
+            return Err(fail("C04.crowded_roster", format!("after a KICK of {} members #big has {} members; NAMES shows {}, WHO {}", names.len(), truth.len(), nm.len(), wh.len()), &log));
+        }
+    }
     for p in crate::sim::take_panics() {
         if p.task.is_some() {
             return Err(fail("C04.crowded_roster", format!("handler aborted: {} at {}", p.msg, p.loc), &log));
